@@ -58,16 +58,17 @@ class IdSim:
             return sid
         tn = type(obj).__name__
         try:
-            stack = self.retired.get(tn)
-            if stack:
-                sid = stack.pop()
-                self.reused += 1
-            else:
-                self.next += 16
-                sid = self.next
-            self.weakref.finalize(obj, self._died, rid, tn, sid)
+            self.weakref.ref(obj)
         except TypeError:       # not weak-referenceable (list, dict, int ...): the real id
             return rid
+        stack = self.retired.get(tn)
+        if stack:
+            sid = stack.pop()
+            self.reused += 1
+        else:
+            self.next += 16
+            sid = self.next
+        self.weakref.finalize(obj, self._died, rid, tn, sid)
         self.live[rid] = sid
         return sid
 
@@ -134,6 +135,7 @@ class Ctx:
         self.snap_base = {}                    # name -> exact key at creation
         self.probes = {}
         self.model_state = {}                  # for O5 store model etc.
+        self.pending_o2 = {}
         self.active_tracer = None              # tracer of the faulted step whose operation is on the stack
         self.kept = []                         # (record, raw result, exact key at return time) for O6
         self.fingerprints = set()
@@ -256,6 +258,10 @@ class Seam:
                 ctx.probe("nested_call_events")
                 if ctx.depth + 1 > ctx.probes.get("max_nest_depth", 0):
                     ctx.probes["max_nest_depth"] = ctx.depth + 1
+                # what the host did to shared objects before it called back is the host's doing, not the nested step's
+                pre = ctx.check_o2()
+                if pre:
+                    ctx.pending_o2.setdefault(seam.step["id"], []).extend(pre)
                 ctx.depth += 1
                 tr = ctx.active_tracer
                 if tr is not None:
@@ -416,7 +422,9 @@ def exec_step(ctx, step, host=None):
                 rec["result"] = ["handle", type(res).__name__, C.canon(res)]
         else:
             rec["result"] = C.canon(res)
-        if ctx.mode == "history" and status == "ok" and not callable(res):
+        if ctx.mode == "history" and status == "ok" and not callable(res) and (not spec.handle or spec.snap or spec.handle == "value"):
+            # O6 speaks about plain values and description objects; a solution object may legitimately finish its
+            # work lazily (its public fields may change when it is first queried) - its answers are judged by O1
             try:
                 ctx.kept.append((rec, res, C.exact_key(C.canon(res))))
             except Exception:
@@ -434,9 +442,9 @@ def exec_step(ctx, step, host=None):
         ran = sorted(n for n in seam.nested if n < seam.calls)
         rec["seam_calls"] = seam.calls
         rec["nested_not_run"] = [s["id"] for n, ss in sorted(seam.nested.items()) if n >= seam.calls for s in ss]
-    o2 = ctx.check_o2()
+    o2 = ctx.pending_o2.pop(step["id"], []) + ctx.check_o2()
     if o2:
-        rec["o2"] = o2
+        rec["o2"] = sorted(set(o2))
     if ctx.mode == "history":
         fp = module_fingerprint(ctx)
         if fp not in ctx.fingerprints:
@@ -572,8 +580,15 @@ def index_steps(plan):
     return idx
 
 
-def run_chain(plan, chain_ids):
-    """reference evaluation: fresh objects, only the given steps, no nesting, no faults"""
+def run_chain(plan, chain_ids, perturb=0):
+    """reference evaluation: fresh objects, only the given steps, no nesting, no faults.
+    perturb > 0 shifts the heap layout first (used to tell layout-sensitive numerics from history dependence)"""
+    junk = []
+    if perturb:
+        import numpy as np
+        for k in range(7 * perturb):
+            junk.append(np.empty(13 + 8 * k + perturb, dtype=np.uint8))
+            junk.append(bytearray(33 + 17 * k))
     ctx = Ctx(plan, "ref")
     idx = index_steps(plan)
     rec = None
